@@ -260,6 +260,15 @@ func zoneHandler(args []string) (string, []string) {
 		if jd3 != jd || secs != sod {
 			ps.add("C10", "%s instant=%d GetJdAndSecondsFromEpoch=(%d,%d) differs from (%d,%d)", tag, e, jd3, secs, jd, sod)
 		}
+		// C18 at this observation point: the seconds are 3600h+60m+s of the time of day the library itself reports for
+		// the instant, and converting them back gives that time of day
+		if want := 3600*int(hms.Hour) + 60*int(hms.Minute) + int(hms.Second); secs != want {
+			ps.add("C18", "%s instant=%d GetJdAndSecondsFromEpoch gives %d seconds, the time of day GetJhmsByEpoch gives is %s = %d seconds", tag, e, secs, hms.String(), want)
+		} else if secs >= 0 {
+			if back := utils.GetHmsBySeconds(uint(secs)); back != hms {
+				ps.add("C18", "%s instant=%d seconds=%d convert back to %s, the time of day was %s", tag, e, secs, back.String(), hms.String())
+			}
+		}
 		// split into day number + wall clock and recombine
 		back := utils.GetEpochByJhms(jd, hms, loc)
 		tb := time.Unix(back, 0).In(loc)
